@@ -4,7 +4,7 @@ import json, subprocess
 
 CLAIMS = {
  "C17": dict(
-   text="The pending view of a write batch (after SetPending(true): a deleted key reports (true,nil), a put key (false,value), an untouched key (false,nil); Reset clears it) is stated as field-level contracts and discharged for the real Put/Delete/GetPending/SetPending/Reset of the leveldb, pebble and memorydb batches; rawdb's table batch is verified to forward to the wrapped batch; two SMT lemmas check the step from the field-level contracts to the interface-level ghost contract used by clients.",
+   text="The pending view of a write batch (after SetPending(true): a deleted key reports (true,nil), a put key (false,value), an untouched key (false,nil); Reset clears it) is stated as field-level contracts and discharged for the real Put/Delete/GetPending/SetPending/Reset of the leveldb, pebble and memorydb batches; rawdb's table batch is verified to forward to the wrapped batch; two SMT lemmas check the step from the field-level contracts to the interface-level ghost contract used by clients. memorydb.Database.Has/Get/Put/Delete are proved against the finite-map reading of the store (presence, sizes, not-found and closed errors); pebble's iterator upperBound(prefix) is the shortest byte string above every key with the prefix (quantified postcondition).",
    note="Assumed: goleveldb / pebble engines themselves (b.b.Put/Delete/Commit are external), iterator order, Write/Replay semantics. The interface-level ghost contract (pendOn/pendDel) is trusted at client call sites; the refinement is checked only through the two abstract lemmas. Repaired defect: see KNOWN_FINDINGS.txt (fixed: a94806dd).",
    design="4 (C17)", technique="contract-based deductive verification: behavioural-subtyping contracts on each batch implementation, VCs from go/ssa, z3/cvc5"),
  "C01": dict(
